@@ -239,6 +239,13 @@ class AbstractCodeGen(object):
                   ('ipRouteProto', [('RFC1213-MIB', 'ipRouteProto')]),
                   ('ipRouteAge', [('RFC1213-MIB', 'ipRouteAge')]),
                   ('ipRouteMask', [('RFC1213-MIB', 'ipRouteMask')]),
+                  ('at', [('RFC1213-MIB', 'at')]),
+                  ('atTable', [('RFC1213-MIB', 'atTable')]),
+                  ('atEntry', [('RFC1213-MIB', 'atEntry')]),
+                  ('atIfIndex', [('RFC1213-MIB', 'atIfIndex')]),
+                  ('atPhysAddress', [('RFC1213-MIB', 'atPhysAddress')]),
+                  ('atNetAddress', [('RFC1213-MIB', 'atNetAddress')]),
+                  ('egp', [('RFC1213-MIB', 'egp')]),
                   ('egpInMsgs', [('RFC1213-MIB', 'egpInMsgs')]),
                   ('egpInErrors', [('RFC1213-MIB', 'egpInErrors')]),
                   ('egpOutMsgs', [('RFC1213-MIB', 'egpOutMsgs')]),
